@@ -394,6 +394,79 @@ theorem decide_spec (c : Cfg) (e : Env) (left : List Nat) (t : Nat) (r : Decisio
           · dec_triv
           · dec_triv
 
+theorem lastEnd_spec (e : Env) (l : List Nat) (m : Nat) (h : lastEnd e l = some m) :
+    ∀ d ∈ l, ∃ y v, e.entry d = some y ∧ y.endC = some v ∧ v ≤ m := by
+  induction l generalizing m with
+  | nil => intro d hd; cases hd
+  | cons a r ih =>
+    intro d hd
+    unfold lastEnd at h
+    cases hy : e.entry a with
+    | none => simp [hy] at h
+    | some y =>
+      cases hv : y.endC with
+      | none => simp [hy, hv] at h
+      | some v =>
+        simp only [hy, hv, Option.bind_some] at h
+        cases r with
+        | nil =>
+          simp at h; subst h
+          simp at hd; subst hd
+          exact ⟨y, v, hy, hv, Nat.le_refl _⟩
+        | cons b r' =>
+          simp only at h
+          cases hl : lastEnd e (b :: r') with
+          | none => simp [hl] at h
+          | some m' =>
+            simp only [hl] at h
+            injection h with h; subst h
+            rcases List.mem_cons.1 hd with hd | hd
+            · subst hd; exact ⟨y, v, hy, hv, Nat.le_max_left _ _⟩
+            · obtain ⟨y', v', h1, h2, h3⟩ := ih m' hl d hd
+              exact ⟨y', v', h1, h2, Nat.le_trans h3 (Nat.le_max_right _ _)⟩
+
+/-- when `decide` keeps a DONE task, every DONE dependency ended before the task started -/
+theorem decide_drop_clocks (c : Cfg) (e : Env) (left : List Nat) (t : Nat) (e' : Env)
+    (h : decide c e left t = (.drop, e')) :
+    ∀ d ∈ c.depsOf t, ∀ y, e.entry d = some y → y.st = .done → d ≠ t →
+      ∃ o ev sv, e.entry t = some o ∧ y.endC = some ev ∧ o.startC = some sv ∧ ev ≤ sv := by
+  intro d hd y hy hyd hdt
+  unfold decide at h
+  simp only at h
+  split at h
+  · cases h
+  · split at h
+    · cases h
+    · split at h
+      · rename_i h3
+        obtain ⟨o, ho, hod⟩ := (isSt_iff _ _ _).1 h3
+        have hold : e.entry t = some o := by
+          rw [entry_touch_same] at ho
+          cases hx : e.entry t with
+          | none => rw [hx] at ho; simp at ho; subst ho; cases hod
+          | some o' => rw [hx] at ho; simp at ho; rw [ho]
+        have hdin : d ∈ (c.depsOf t).filter (fun d => (e.touch t).isSt d .done) := by
+          rw [List.mem_filter]
+          refine ⟨hd, ?_⟩
+          rw [isSt_iff]; exact ⟨y, by rw [entry_touch_other e t d hdt]; exact hy, hyd⟩
+        split at h
+        · rename_i hemp
+          rw [List.isEmpty_iff] at hemp
+          rw [hemp] at hdin; cases hdin
+        · split at h
+          · rename_i le ts hle hts
+            split at h
+            · rename_i hcmp
+              obtain ⟨y', v, h1, h2, h3⟩ := lastEnd_spec _ _ _ hle d hdin
+              rw [entry_touch_other e t d hdt, hy] at h1; injection h1 with h1; subst h1
+              have hts' : o.startC = some ts := by
+                have : ((e.touch t).entry t).bind (·.startC) = some ts := hts
+                rw [entry_touch_same, hold] at this; simpa using this
+              exact ⟨o, v, ts, hold, h2, hts', Nat.le_trans h3 hcmp⟩
+            · cases h
+          · cases h
+      · split at h <;> cases h
+
 /-- why `decide` says wait -/
 theorem decide_wait_reason (c : Cfg) (e : Env) (left : List Nat) (t : Nat) (e' : Env) (hself : t ∉ c.depsOf t)
     (h : decide c e left t = (.wait, e')) :
